@@ -344,8 +344,18 @@ func emit(l *logger.Logger, r *record) {
 		l.LogAttrs(context.Background(), r.level, msg, r.attrs...)
 	case 2:
 		l.Log(context.Background(), r.level, msg, r.args...)
-	default:
+	case 3:
 		l.Logf(context.Background(), r.level, "%s", msg)
+	default:
+		// Panic logs at LevelError and then panics with the message
+		func() {
+			defer func() {
+				if p := recover(); p != msg {
+					panic(fmt.Sprintf("Logger.Panic raised %v, want %q", p, msg))
+				}
+			}()
+			l.Panic(msg, r.args...)
+		}()
 	}
 }
 
@@ -583,7 +593,10 @@ func (w *world) log(by string, n *node) {
 	ch := simrt.Choose
 	r := &record{id: len(w.recs), node: n, by: by, token: w.token("MSG") + "~"}
 	r.level = []slog.Level{logger.LevelDebug, logger.LevelInfo, logger.LevelWarn, logger.LevelError, logger.LevelFatal}[ch("log.level", 5)]
-	r.method = ch("log.method", 4)
+	r.method = ch("log.method", 5)
+	if r.method == 4 {
+		r.level = logger.LevelError
+	}
 	if r.method != 3 {
 		r.attrs = w.genAttrs(ch("log.attrs", 4), 0)
 		r.args = toArgs(r.attrs)
